@@ -26,14 +26,17 @@ NotifyJudge(e) ==
   THEN "harness_stub_return_mismatch"
   ELSE LET v == NotifyVerdict(treg, e.ev, e.lang, 0, e.invoked, e.rets, e.seen, e.outs, e.ret) IN
        IF v # "" THEN v
-       ELSE LET j == LastProcessed(e.rets, Len(e.rets)) IN
-            IF e.final_out # (IF j = 0 THEN 0 ELSE e.outs[j]) THEN "wrong_final_data" ELSE ""
+       ELSE \* what the requester reads afterwards; judged unless a declining handler wrote after the last processed one
+            LET j == LastProcessed(e.rets, Len(e.rets))
+                exp == IF j = 0 THEN 0 ELSE e.outs[j]
+                ambiguous == \E k \in (j + 1)..Len(e.outs) : e.outs[k] # exp
+            IN IF ~ambiguous /\ e.final_out # exp THEN "wrong_final_data" ELSE ""
 
 Step(k) ==
   LET e == Forest.nodes[k] IN
   /\ node' = k /\ UNCHANGED vars
   /\ IF e.op = "register"
-     THEN LET rg2 == Append(treg, Handler(e.id, e.ev, e.langs, e.ret)) IN
+     THEN LET rg2 == Append(treg, Handler(e.id, e.ev, e.langs, e.ret, e.w)) IN
           /\ treg' = rg2
           /\ bad' = RegisterVerdict(e, rg2)
      ELSE /\ treg' = treg
